@@ -67,6 +67,11 @@ VARIANTS = {
     'cls-text': ({'body': 'a <b tal:content="1">x</b> ${v}'}, {'body': 'a <b tal:content="1">x</b> ${v}', 'cls': 'PageTextTemplate'}),
     'mode': ({'body': 'a <b tal:content="1">x</b> ${v}'}, {'body': 'a <b tal:content="1">x</b> ${v}', 'cfg': {'mode': 'text'}}),
     'filename': ({}, {'cfg': {'filename': '/x/other.pt'}}),
+    # the file name is part of every render error message: same basename, different directory
+    'filename-same-basename-in-error': ({'body': '<p>${v}</p>\n<p>${1/0}</p>', 'cfg': {'filename': '/x/default/page.pt'}},
+                                        {'body': '<p>${v}</p>\n<p>${1/0}</p>', 'cfg': {'filename': '/x/custom/page.pt'}}),
+    'filename-in-error': ({'body': '<p>${v}</p>\n<p>${1/0}</p>', 'cfg': {'filename': '/x/a.pt'}},
+                          {'body': '<p>${v}</p>\n<p>${1/0}</p>', 'cfg': {'filename': '/x/b.pt'}}),
     'body': ({}, {'body': '<p>other</p>'}),
     'body-crlf-vs-lf-xml': ({'body': '<?xml version="1.0"?>\r\n<p>a\r\nb ${v}</p>\r\n'}, {'body': '<?xml version="1.0"?>\n<p>a\nb ${v}</p>\n'}),
     'body-cr-vs-lf-xml': ({'body': '<?xml version="1.0"?>\r<p>a\rb ${v}</p>'}, {'body': '<?xml version="1.0"?>\n<p>a\nb ${v}</p>'}),
